@@ -52,6 +52,29 @@ def run_exec(prop, tier, rep, specs, clauses, cap_q=40, cap_t=300, rule="", dens
         outcomes = execpipe.run_batch(items, rep, relevant, wd, prop.lower(), shards=shards)
     rep.cov["distinct_nontrivial"] = len({m["text"] for _, m in items})
     rep.cov["rule"] = rule + "; distinct = distinct emitted program texts (every one is run on its whole listed input space)"
+    # which HiFiber operations the corpus exercises (from the HF-IR of the emitted programs): vacuity control per action of HFMachine
+    ops = {}
+
+    def walk(x):
+        if isinstance(x, dict):
+            if x.get("e") == "call":
+                fn = x["fn"]
+                nm = fn.get("name") if fn.get("e") == "attr" else fn.get("id")
+                if nm:
+                    ops[nm] = ops.get(nm, 0) + 1
+            if x.get("e") == "bin" and x.get("op") in ("&", "|", "<<"):
+                ops[x["op"]] = ops.get(x["op"], 0) + 1
+            if x.get("op") == "aug":
+                ops["update " + x.get("bop", "") + "="] = ops.get("update " + x.get("bop", "") + "=", 0) + 1
+            for v in x.values():
+                walk(v)
+        elif isinstance(x, list):
+            for v in x:
+                walk(v)
+
+    for e, _ in items:
+        walk(e["code"])
+    rep.cov["operations_in_corpus"] = dict(sorted(ops.items()))
     fams = {}
     for _, m in items:
         fams[m["family"]] = fams.get(m["family"], 0) + 1
